@@ -60,9 +60,12 @@ func NewReport(cmd string) *Report {
 const maxViolations = 25
 
 func (r *Report) Violate(kind string, input map[string]interface{}, detail string) {
-	if len(r.Violations) < maxViolations {
+	// the cap is per kind: violations of one kind (e.g. a known finding that shows on many inputs)
+	// must not crowd out another kind
+	if r.Stats["violations_kind_"+kind] < maxViolations {
 		r.Violations = append(r.Violations, Violation{Kind: kind, Input: input, Detail: detail})
 	}
+	r.Stats["violations_kind_"+kind]++
 	r.Stats["violations_total"]++
 }
 
